@@ -1,4 +1,7 @@
 import Abyss.Props.C18
+import Abyss.Props.GenCorollaries2
+#print axioms Abyss.C18_generated_same_updates_same_files
+#print axioms Abyss.C18_generated_readonly_erasure
 #print axioms Abyss.C18_readonly_erasure
 #print axioms Abyss.C18_same_updates_same_files
 #print axioms Abyss.C15_store_frame
